@@ -33,6 +33,8 @@ type Object struct {
 	// Frozen objects are copies of goroutine-local cells captured by a spawned
 	// goroutine (BMC): read-only.
 	Frozen bool
+	// Snap: canonical snapshot of a goroutine-local cell live across a visible operation (BMC).
+	Snap bool
 }
 
 type StructV struct{ F []Value }
